@@ -287,6 +287,10 @@ class PusTc(AbstractSpacePacket):
         expected_packet_len = tc_unpacked.packet_len
         if len(data) < expected_packet_len:
             raise BytesTooShortError(expected_packet_len, len(data))
+        if expected_packet_len < header_len + 2:
+            raise ValueError(
+                f"packet length {expected_packet_len} too small for secondary header and CRC16"
+            )
         tc_unpacked._app_data = data[header_len : expected_packet_len - 2]
         tc_unpacked._crc16 = data[expected_packet_len - 2 : expected_packet_len]
         if CRC16_CCITT_FUNC(data[:expected_packet_len]) != 0:
